@@ -126,16 +126,15 @@ func (c *cacheParams) commit(ctx sdk.Context, k common.KeeperOracle) {
 	if block > uint64(common.MaxNonce) {
 		firstKept = block - uint64(common.MaxNonce)
 	}
+	// the params in force in the first blocks of the replay window are the newest ones recorded
+	// BEFORE the window: they must be kept (in the store, not only in the index), or a node
+	// that restarts inside the window has no params to replay those blocks with
 	i := 0
-	for ; i < len(index.Index); i++ {
-		b := index.Index[i]
-		if b >= firstKept {
-			break
-		}
-		k.RemoveRecentParams(ctx, b)
+	for j := 0; j < len(index.Index) && index.Index[j] < firstKept; j++ {
+		i = j
 	}
-	if i > 0 && i == len(index.Index) {
-		i--
+	for j := 0; j < i; j++ {
+		k.RemoveRecentParams(ctx, index.Index[j])
 	}
 	index.Index = index.Index[i:]
 	// remove and append for KVStore
